@@ -170,6 +170,10 @@ def required_value(key, props, v, where):
             return [("W", v.upper())]
         if s.startswith("[") and s.endswith("]") and any(p.startswith("^\\[") for p in pats):
             return [("B", s)]
+        if s.startswith("[") and s.endswith("]") and len(alts) >= 2 and key != "text":
+            # keywords with several alternatives (SYMBOL, SIZE, ...) take bindings in MapServer even where the
+            # schema does not list the pattern: either form is accepted here
+            return [("B?", s)]
         if s.startswith("(") and s.endswith(")") and expr_alt:
             return [("P", s)]
         if s.startswith("NOT ") and s[4:].strip().startswith("(") and s.endswith(")") and expr_alt:
@@ -301,6 +305,8 @@ def same_token(a, b):
             return float(b[1]) == float(a[1])
         except ValueError:
             return False
+    if a[0] == "B?":
+        return b[0] in ("B", "Q") and b[1].strip() == a[1].strip()
     if a[0] in ("P", "B", "R", "L"):
         return b[0] == a[0] and b[1].strip() == a[1].strip()
     return a == b
